@@ -30,8 +30,10 @@
 (***************************************************************************)
 EXTENDS Maintainer, Json
 
-VARIABLES l
-tvars == <<vars, l>>
+VARIABLES l,
+          pend   \* a reply the harness has logged and handed to the socket loop, not yet processed by the node
+tvars == <<vars, l, pend>>
+NoPend == [to |-> "none", c |-> "", nodes |-> {}]
 
 TraceLog == ndJsonDeserialize("trace.ndjson")
 TEv == TraceLog[l]
@@ -43,11 +45,11 @@ Entry(x) == [id |-> x.id, addr |-> x.id, b |-> TBucketOf(x.id), ab |-> x.ab, sec
              q |-> x.q, r |-> x.r, failed |-> x.failed]
 SnapTable(s) == {Entry(x) : x \in Range(s)}
 
-TraceInit == Init /\ l = 2
+TraceInit == Init /\ l = 2 /\ pend = NoPend
 
 \* a fresh server, its table as the harness prepared it; the maintainer starts
 TraceSetup ==
-  /\ IsEvent("Setup")
+  /\ IsEvent("Setup") /\ pend = NoPend /\ UNCHANGED pend
   /\ table' = SnapTable(TEv.table)
   /\ pc' = "top" /\ bi' = 0 /\ rl' = 0 /\ closed' = FALSE /\ lastBoot' = "never"
   /\ pings' = NoPings /\ trav' = NoTrav /\ bsig' = FALSE /\ sleeps' = 0
@@ -60,7 +62,7 @@ TraceSendPing ==
      /\ c \in Contacts /\ pings[c].st = "open" /\ pings[c].sends < MaxPingSends
      /\ TEv.nth = pings[c].sends + 1
      /\ pings' = [pings EXCEPT ![c].sends = @ + 1]
-  /\ UNCHANGED <<table, pc, bi, rl, closed, lastBoot, trav, bsig, sleeps>>
+  /\ UNCHANGED <<table, pc, bi, rl, closed, lastBoot, trav, bsig, sleeps, pend>>
 
 TraceSendFind ==
   /\ IsEvent("Send") /\ TEv.q = "find_node"
@@ -68,14 +70,24 @@ TraceSendFind ==
      /\ c \in Contacts /\ Active /\ trav.target = TEv.tb /\ TEv.nth = 1
      /\ c \in trav.known \ trav.queried /\ Cardinality(trav.inflight) < Alpha
      /\ trav' = [trav EXCEPT !.queried = @ \cup {c}, !.inflight = @ \cup {c}]
-  /\ UNCHANGED <<table, pc, bi, rl, closed, lastBoot, pings, bsig, sleeps>>
+  /\ UNCHANGED <<table, pc, bi, rl, closed, lastBoot, pings, bsig, sleeps, pend>>
+
+\* The harness logs a reply and hands it to the socket loop; the call returns once the node has processed it, and
+\* only then does the harness log anything else.  The node's own sends can fall in between (a resend that was due
+\* while the reply waited for the write lock), so the effect is a step of its own: Deliver.
+TraceReply ==
+  /\ IsEvent("Reply") /\ pend = NoPend
+  /\ pend' = [to |-> TEv.to, c |-> TEv.dst, nodes |-> Range(TEv.nodes) \cap Contacts]
+  /\ UNCHANGED vars
 
 \* a reply completes the query it answers if that query is still open; otherwise it is unsolicited
-TraceReply ==
-  /\ IsEvent("Reply")
-  /\ LET c == TEv.dst
-         L == Range(TEv.nodes) \cap Contacts IN
-     IF TEv.to = "ping"
+Deliver ==
+  /\ pend # NoPend /\ pend' = NoPend /\ UNCHANGED l
+  /\ LET c == pend.c
+         L == pend.nodes IN
+     IF pend.to = "query"
+     THEN InboundQuery(c) \/ (closed /\ UNCHANGED vars)
+     ELSE IF pend.to = "ping"
      THEN \/ PingAnswer(c)
           \/ /\ ~(pings[c].st = "open" /\ pings[c].sends > 0) \/ closed
              /\ UNCHANGED vars
@@ -83,18 +95,22 @@ TraceReply ==
           \/ /\ c \notin trav.inflight \/ closed
              /\ UNCHANGED vars
 
-TraceQuery == IsEvent("Query") /\ InboundQuery(TEv.from)
+\* a contact's own ping: same discipline as a reply
+TraceQuery ==
+  /\ IsEvent("Query") /\ pend = NoPend
+  /\ pend' = [to |-> "query", c |-> TEv.from, nodes |-> {}]
+  /\ UNCHANGED vars
 
 \* the hook takes the write lock: no snapshot while the maintainer holds the read lock
 TraceSnap ==
-  /\ IsEvent("Snap") /\ rl = 0
+  /\ IsEvent("Snap") /\ rl = 0 /\ pend = NoPend /\ UNCHANGED pend
   /\ table = SnapTable(TEv.table)
   /\ UNCHANGED vars
 
-TraceClose == IsEvent("Close") /\ Close
+TraceClose == IsEvent("Close") /\ pend = NoPend /\ UNCHANGED pend /\ Close
 
 TraceReturned ==
-  /\ IsEvent("Returned") /\ pc = "returned"
+  /\ IsEvent("Returned") /\ pc = "returned" /\ UNCHANGED pend
   /\ UNCHANGED vars
 
 \* a lookup query that fails at once because the server is closed puts nothing on the wire
@@ -103,11 +119,11 @@ SilentLaunch(c) == closed /\ TLaunch(c)
 Silent ==
   /\ \/ MaintainerStep
      \/ \E c \in Contacts : PingGiveUp(c) \/ PingMark(c) \/ TFail(c) \/ SilentLaunch(c)
-  /\ UNCHANGED l
+  /\ UNCHANGED <<l, pend>>
 
 TraceNext == \/ TraceSetup \/ TraceSendPing \/ TraceSendFind \/ TraceReply \/ TraceQuery \/ TraceSnap
              \/ TraceClose \/ TraceReturned
-             \/ Silent
+             \/ Silent \/ Deliver
 TraceSpec == TraceInit /\ [][TraceNext]_tvars
 
 HW == TLCSet(1, IF TLCGet(1) < l THEN l ELSE TLCGet(1))
